@@ -1,6 +1,7 @@
 package vg
 
 import (
+	"context"
 	"encoding/json"
 	"fmt"
 	"net/http"
@@ -314,6 +315,9 @@ type HTTPCall struct {
 	Rec    *httptest.ResponseRecorder
 	CID    string
 	Tag    string
+	// Abort cancels the request's context, like net/http does when the HTTP
+	// client goes away.
+	Abort context.CancelFunc
 }
 
 // Done reports whether the handler has returned.
@@ -343,6 +347,9 @@ func serveHTTP(handler http.Handler, clock *Clock, method, url string, body []by
 		close(hc.done)
 		return hc
 	}
+	ctx, cancel := context.WithCancel(context.Background())
+	req = req.WithContext(ctx)
+	hc.Abort = cancel
 	req.RequestURI = req.URL.RequestURI()
 	if req.Body == nil {
 		req.Body = http.NoBody // a server-side request always has a body
